@@ -196,9 +196,15 @@ package funnel
 //verif:def sameKind(a, b) = a == nil && b == nil || a != nil && b != nil && dyntype(a) == dyntype(b)
 
 //verif:func (*Batch).ActiveRecords(b) (r)
-//verif:requires BLens(b)
+//verif:requires BInv(b)
 //verif:ensures[count] len(r) == active(b)
+//verif:ensures[all-when-unfiltered] b.filterCount == 0 ==> r == b.records
+//verif:ensures[kth-active] forall p in [0, len(b.records)): b.recordStatuses[p].Flag != RecordFlagFilter ==> 0 <= p - nfiltTo(b, p) && p - nfiltTo(b, p) < len(r) && r[p - nfiltTo(b, p)].Position == b.records[p].Position
 //verif:modifies nothing
+//verif:loop 0 vars j=rangeindex
+//verif:loop 0 invariant j < len(b.records) && len(active) == j + 1 - nfiltTo(b, j + 1) && fresh(active) && b.filterCount > 0
+//verif:loop 0 invariant forall p in [0, j + 1): b.recordStatuses[p].Flag != RecordFlagFilter ==> 0 <= p - nfiltTo(b, p) && p - nfiltTo(b, p) < len(active) && active[p - nfiltTo(b, p)].Position == b.records[p].Position
+//verif:loop 0 hint lemma_cntf_next(heapof(b.recordStatuses, "Flag"), base(b.recordStatuses), off(b.recordStatuses), j + 1)
 
 //verif:func (*Batch).SetRecords(b, i, recs)
 //verif:requires BLens(b) && 0 <= i && i + len(recs) <= active(b)
@@ -272,3 +278,34 @@ package funnel
 //verif:func (*Worker).Close(w, ctx) (err)
 //verif:call[dlq-closed-after-source-teardown] (*DLQ).Close requires called("(*Worker).tearDownSource")
 //verif:ensures[everything-attempted] called("(*Worker).tearDownSource") && called("(*DLQ).Close")
+
+// ---- C08: the active-record index bookkeeping of Batch, proved -------------------------
+// BInv: the parallel slices have equal lengths and filterCount is exactly the number of
+// records whose flag is RecordFlagFilter (cntf, spec/C08.smt2).
+//verif:def nfiltTo(b, m) = cntf(heapof(b.recordStatuses, "Flag"), base(b.recordStatuses), off(b.recordStatuses), m)
+//verif:def nfilt(b) = nfiltTo(b, len(b.recordStatuses))
+//verif:def BInv(b) = BLens(b) && b.filterCount == nfilt(b)
+
+// activeRecordIndices returns nil when nothing is filtered; otherwise the physical
+// indices of the records that are not filtered, in increasing order and complete:
+// r[k] is the k-th active record (exactly r[k]-k filtered records precede it).
+//verif:func (*Batch).activeRecordIndices(b) (r)
+//verif:requires BInv(b)
+//verif:modifies nothing
+//verif:ensures[nil-when-unfiltered] b.filterCount == 0 ==> isnil(r) && len(r) == 0
+//verif:ensures[count] b.filterCount > 0 ==> len(r) == active(b)
+//verif:ensures[kth-active] b.filterCount > 0 ==> forall k in [0, len(r)): 0 <= r[k] && r[k] < len(b.records) && b.recordStatuses[r[k]].Flag != RecordFlagFilter && nfiltTo(b, r[k]) == r[k] - k
+//verif:ensures[fresh] b.filterCount > 0 ==> fresh(r)
+//verif:loop 0 vars j=rangeindex
+//verif:loop 0 invariant j < len(b.recordStatuses) && len(active) == j + 1 - nfiltTo(b, j + 1) && fresh(active)
+//verif:loop 0 invariant forall k in [0, len(active)): 0 <= active[k] && active[k] <= j && b.recordStatuses[active[k]].Flag != RecordFlagFilter && nfiltTo(b, active[k]) == active[k] - k
+//verif:loop 0 hint lemma_cntf_next(heapof(b.recordStatuses, "Flag"), base(b.recordStatuses), off(b.recordStatuses), j + 1)
+
+// setFlagNoErr gives flag f to exactly the active records [i, end) (end = j[0], or i+1)
+// and to nothing else: every other record keeps its flag, no error is touched.
+//verif:func (*Batch).setFlagNoErr(b, f, i, j)
+//verif:requires BInv(b) && 0 <= i && len(j) <= 1 && (len(j) == 0 ==> i < active(b)) && (len(j) == 1 ==> i < j[0] && j[0] <= active(b))
+//verif:modifies b.recordStatuses[*].Flag
+//verif:ensures[exactly-the-active-range] forall p in [0, len(b.recordStatuses)): b.recordStatuses[p].Flag == ite(old(b.recordStatuses[p].Flag) != RecordFlagFilter && i <= p - old(nfiltTo(b, p)) && p - old(nfiltTo(b, p)) < ite(len(j) == 1, old(j[0]), i + 1), f, old(b.recordStatuses[p].Flag))
+//verif:loop 0 invariant i <= k && k <= j[0] && forall p in [0, len(b.recordStatuses)): b.recordStatuses[p].Flag == ite(i <= p && p < k, f, old(b.recordStatuses[p].Flag))
+//verif:loop 1 invariant i <= k && k <= j[0] && forall p in [0, len(b.recordStatuses)): b.recordStatuses[p].Flag == ite(old(b.recordStatuses[p].Flag) != RecordFlagFilter && i <= p - old(nfiltTo(b, p)) && p - old(nfiltTo(b, p)) < k, f, old(b.recordStatuses[p].Flag))
